@@ -210,7 +210,7 @@ def _ob_f(name):
     return run
 
 
-def obligations(tier, seed):
+def _obligations(tier, seed):
     obs = []
     for name in SPEC:
         for law in LAWS:
@@ -220,3 +220,8 @@ def obligations(tier, seed):
     for name in SPEC:
         obs.append((f"{name}/F/range", _ob_f(name)))
     return obs
+
+
+def obligations(tier, seed):
+    from . import conform
+    return _obligations(tier, seed) + conform.obligations(PROPERTY, tier)
